@@ -19,7 +19,8 @@ from collections import Counter
 
 from .boot import HarnessError, VERIF_DIR, in_repo
 
-MAX_ROUNDS = 4
+MAX_ROUNDS = 3
+SHRINK_SECONDS = 25.0     # wall-clock budget for shrinking one failure (never a correctness signal)
 
 
 class Violation(Exception):
@@ -200,7 +201,11 @@ def _call_body(rep, sub, case):
 
 
 def _run_enum(rep, sub, cases):
+    t_first = None
     for case in cases:
+        if t_first is not None and time.time() - t_first > SHRINK_SECONDS:
+            rep.notes.append(f"{sub.name}: enumeration stopped {SHRINK_SECONDS:.0f}s after the first violation")
+            break
         try:
             _call_body(rep, sub, case)
         except Inconclusive:
@@ -210,6 +215,8 @@ def _run_enum(rep, sub, cases):
                 rep.excluded[v.signature] += 1
             else:
                 rep.record(sub.name, v)
+                if t_first is None:
+                    t_first = time.time()
 
 
 def _run_hyp(rep, sub, n, seedval):
@@ -220,9 +227,12 @@ def _run_hyp(rep, sub, n, seedval):
     st = {"fails": 0, "failed": set(), "round_new": set()}
 
     def wrapped(case):
-        if st["fails"] >= sub.shrink_budget:
+        if st["fails"] >= sub.shrink_budget or (st["fails"] and time.time() - st["t_first"] > SHRINK_SECONDS):
             if canon(case) not in st["failed"]:
                 return
+        if st["excl_time"] > SHRINK_SECONDS:
+            return      # the tree already violates; cases hitting an excluded signature used up this round's budget
+        t_case = time.time()
         try:
             _call_body(rep, sub, case)
         except Inconclusive:
@@ -231,10 +241,13 @@ def _run_hyp(rep, sub, n, seedval):
         except Violation as v:
             if v.signature in rep.ignored:
                 rep.excluded[v.signature] += 1
+                st["excl_time"] += time.time() - t_case
                 return
             if v.case is None:
                 v.case = case
             rep.record(sub.name, v)
+            if not st["fails"]:
+                st["t_first"] = time.time()
             st["fails"] += 1
             st["failed"].add(canon(case))
             st["round_new"].add(v.signature)
@@ -244,6 +257,7 @@ def _run_hyp(rep, sub, n, seedval):
         st["fails"] = 0
         st["failed"] = set()
         st["round_new"] = set()
+        st["excl_time"] = 0.0
         test = seed(seedval)(
             settings(
                 max_examples=n, database=None, deadline=None, derandomize=False,
@@ -259,7 +273,7 @@ def _run_hyp(rep, sub, n, seedval):
         except HarnessError:
             raise
         except (herr.Flaky, herr.FlakyFailure) as exc:  # type: ignore[attr-defined]
-            if not st["round_new"]:
+            if not st["round_new"] and not rep.violations:
                 raise HarnessError(f"{sub.name}: flaky test: {exc}") from exc
         except herr.HypothesisException as exc:
             raise HarnessError(f"{sub.name}: hypothesis error {type(exc).__name__}: {exc}") from exc
@@ -291,7 +305,7 @@ def _run_machine(rep, sub, n, seedval):
         except HarnessError:
             raise
         except (herr.Flaky, herr.FlakyFailure) as exc:  # type: ignore[attr-defined]
-            if not new:
+            if not new and not rep.violations:
                 raise HarnessError(f"{sub.name}: flaky machine: {exc}") from exc
         except herr.HypothesisException as exc:
             raise HarnessError(f"{sub.name}: hypothesis error {type(exc).__name__}: {exc}") from exc
@@ -504,3 +518,65 @@ def run_replay(module, path):
         return 1
     print(f"replay {path}: property held")
     return 0
+
+
+MACHINE_SHRINK_BUDGET = 60
+
+
+def machine_guard(rep, new, sub_name, dead_flag, fn, case_fn, ctl=None):
+    """Run one step of a stateful system under the record/ignore protocol.
+
+    fn() performs the step and raises Violation; case_fn() returns the JSON case (whole trace so far).
+    dead_flag is a one-element list: once an ignored violation was seen the system state is unknown and the
+    rest of the run is skipped.
+    """
+    if dead_flag[0]:
+        return
+    if ctl is not None and ctl.get("excl_time", 0.0) > SHRINK_SECONDS:
+        dead_flag[0] = True
+        return
+    t_step = time.time()
+    if ctl is not None and (ctl.get("fails", 0) >= MACHINE_SHRINK_BUDGET
+                            or (ctl.get("fails", 0) and time.time() - ctl.get("t_first", 0) > SHRINK_SECONDS)):
+        # shrink budget used up: later runs do nothing (Hypothesis then reports the best failure found so far;
+        # a Flaky complaint about the final replay is handled by the caller because violations were recorded)
+        dead_flag[0] = True
+        return
+    try:
+        fn()
+    except Inconclusive:
+        rep.inconclusive += 1
+        dead_flag[0] = True
+    except Violation as v:
+        if v.case is None:
+            v.case = case_fn()
+        if v.signature in rep.ignored:
+            rep.excluded[v.signature] += 1
+            dead_flag[0] = True
+            if ctl is not None:
+                ctl["excl_time"] = ctl.get("excl_time", 0.0) + 0.2 + time.time() - t_step
+            return
+        rep.record(sub_name, v)
+        new.add(v.signature)
+        if ctl is not None:
+            ctl.setdefault("t_first", time.time())
+            ctl["fails"] = ctl.get("fails", 0) + 1
+        raise
+    except HarnessError:
+        raise
+    except Exception as exc:  # noqa
+        if type(exc).__module__.startswith("hypothesis"):
+            raise
+        v = _classify_exception(sub_name, exc, case_fn())
+        if v is None:
+            raise HarnessError(f"{sub_name}: harness exception {type(exc).__name__}: {exc}\n" + traceback.format_exc()) from exc
+        if v.signature in rep.ignored:
+            rep.excluded[v.signature] += 1
+            dead_flag[0] = True
+            return
+        rep.record(sub_name, v)
+        new.add(v.signature)
+        if ctl is not None:
+            ctl.setdefault("t_first", time.time())
+            ctl["fails"] = ctl.get("fails", 0) + 1
+        raise v from exc
